@@ -118,3 +118,78 @@ _c("stop_NoteContainer",
                   requires=None, split=None, split_is_domain=None,
                   emits="[('notify', 8, {'notes': None, 'channel': channel})]")],
    battery="seq_nc_stop")
+
+
+# ---------------------------------------------------------------- one bar, entry by entry (event view over the proved
+# container players): bars of 0..3 entries, each a rest, a container, or a container carrying a tempo
+CLASSES["SeqBar"] = {"class": "mingus.containers.bar.Bar", "fields": {"bar": "list[any]"}}
+CLASSES["TempoContainer"] = {"class": "mingus.containers.note_container.NoteContainer",
+                             "fields": {"notes": "[Note]", "bpm": "int"}}
+_EK = ["[real,real,None]", "[real,real,NoteContainer]", "[real,real,TempoContainer]"]
+
+
+def _seq_shapes():
+    import itertools
+    out = [[]]
+    for n in (1, 2, 3):
+        out += [list(c) for c in itertools.product(_EK if n < 3 else _EK[1:], repeat=n)]
+    return out
+
+
+_c("play_Bar",
+   params={"self": "Sequencer", "bar": "SeqBar", "channel": "int", "bpm": "int"},
+   requires=[("tempo-positive", "bpm > 0 and all([e[2] is None or not hasattr(e[2], 'bpm') or e[2].bpm > 0 for e in bar.bar])"),
+             ("values-positive", "all([e[1] > 0 for e in bar.bar])"),
+             ("valid-names", "all([e[2] is None or all([is_name(n.name) for n in e[2].notes]) for e in bar.bar])")],
+   returns="dict[bpm:int]",
+   ensures=[("returns-the-tempo-in-force-at-the-end", "result['bpm'] == seq_final_bpm(bar.bar, bpm)")],
+   emits="[('notify', 9, {'bar': bar, 'channel': channel, 'bpm': bpm})] + seq_bar_events(bar.bar, channel, bpm)",
+   callee_events={M + "play_NoteContainer": {"name": "play_NoteContainer", "assume": ["returns-true"]},
+                  M + "stop_NoteContainer": {"name": "stop_NoteContainer", "assume": ["returns-true"]}},
+   split=[{"field_types": {"bar.bar": "[" + ",".join(sh) + "]"}} for sh in _seq_shapes()], split_is_domain=True,
+   modifies=[], battery="seq_bar",
+   notes="domain: bars of 0..3 entries (rest / container / container with a tempo; the 3-entry shapes without rests), ANY "
+         "positive values and tempi; float-as-real")
+
+CLASSES["SeqTrack"] = {"class": "mingus.containers.track.Track", "fields": {"bars": "list[any]"}}
+
+
+
+def _seq_small():
+    import itertools
+    out = [[]]
+    for n in (1, 2):
+        out += [list(c) for c in itertools.product(_EK, repeat=n)]
+    return out
+
+
+def _seq_track_split(shape):
+    d = {"field_types": {"track.bars": "[" + ",".join(["SeqBar"] * len(shape)) + "]"}}
+    for i, sh in enumerate(shape):
+        d["field_types"]["track.bars.%d.bar" % i] = "[" + ",".join(sh) + "]"
+    return d
+
+
+def _seq_track_shapes():
+    import itertools
+    out = [[]]
+    for n in (1, 2):
+        out += [list(c) for c in itertools.product(_seq_small(), repeat=n)]
+    return out
+
+
+_TRQ = [("tempo-positive", "bpm > 0 and all([all([e[2] is None or not hasattr(e[2], 'bpm') or e[2].bpm > 0 for e in b.bar]) "
+                            "for b in track.bars])"),
+        ("values-positive", "all([all([e[1] > 0 for e in b.bar]) for b in track.bars])"),
+        ("valid-names", "all([all([e[2] is None or all([is_name(n.name) for n in e[2].notes]) for e in b.bar]) "
+                        "for b in track.bars])")]
+_c("play_Track",
+   params={"self": "Sequencer", "track": "SeqTrack", "channel": "int", "bpm": "int"}, requires=_TRQ,
+   returns="dict[bpm:int]",
+   ensures=[("returns-the-tempo-in-force-at-the-end", "result['bpm'] == seq_track_final_bpm(track.bars, bpm)")],
+   emits="[('notify', 11, {'track': track, 'channel': channel, 'bpm': bpm})] + seq_track_events(track.bars, channel, bpm)",
+   callee_events={M + "play_Bar": {"name": "play_Bar", "assume": ["returns-the-tempo-in-force-at-the-end"]}},
+   split=[_seq_track_split(sh) for sh in _seq_track_shapes()], split_is_domain=True,
+   modifies=[], battery="seq_track",
+   notes="domain: tracks of 0..2 bars of 0..2 entries each (rest / container / container with a tempo), ANY positive values "
+         "and tempi: the tempo a bar ends with is the tempo the next bar starts with")
